@@ -8,7 +8,7 @@
 (*   {"op":"next","obs":{"type":t,"text":[cp..],"k":k'}}  NextToken; k' is *)
 (*        the scanner cursor afterwards (hook VerifCursor)                 *)
 (***************************************************************************)
-EXTENDS SymbolTrie, Json, TLC
+EXTENDS SymbolTrie, Json, TLC, Held
 
 VARIABLES l, input, k
 Trace == ndJsonDeserialize("trace.ndjson")
@@ -38,7 +38,7 @@ Next_ ==
   /\ l' = l + 1
   /\ LET e == Trace[l] IN
      /\ Apply(e)
-     /\ LET f == Fails(e) IN f = "" \/ PrintT("VERIF-FAIL " \o ToString(l) \o " " \o f)
+     /\ LET f == Fails(e) IN Report(l, f, Trace[l])
 Spec == Init /\ [][Next_]_<<l, syms, input, k>>
 Accepted == TLCGet("stats").diameter - 1 = Len(Trace)
 =============================================================================
